@@ -244,6 +244,16 @@ func init() {
 		}
 		return p
 	}
+	// the password helper program's fate: A: ok | kill (dies from a signal) | exit3
+	vfExtraOps["helper_mode"] = func(w *vfWorld, st vfStep, p *vfPrepared) *vfPrepared {
+		p.env = func() {
+			w.writeHelperCtl(st.A)
+			if st.A != "ok" {
+				w.fault("pwhelper." + st.A)
+			}
+		}
+		return p
+	}
 	vfProfiles["C06"] = &vfProfile{
 		Gen:        genRoutePlan,
 		Nontrivial: func(res *vfResult) bool { return res.Probes["probes-judged"] >= 5 },
@@ -351,6 +361,11 @@ func genRoutePlan(r *rand.Rand, tier string) *vfPlan {
 		add(vfStep{Op: "mintsession", Sess: "victim", User: "alice", N: int64(AuthTypePassword)})
 		add(vfStep{Op: "mintsession", Sess: "own", User: "mallory", N: int64(AuthTypePassword)})
 		add(vfStep{Op: pick(r, []string{"totp", "vipotp"}), Sess: "own", A: "cur", L: []string{"precookie:victim"}})
+	}
+	if chance(r, 0.25) {
+		// passwords are checked by an external helper program, which may die or fail on its own
+		p.Cfg.PwBackend = "command"
+		add(vfStep{Op: "helper_mode", A: pick(r, []string{"kill", "kill", "exit3", "ok"})})
 	}
 	shapes := []string{"none", "basic-wrong", "expired-cookie", "forged-cookie", "wrongkind-cookie", "lowlevel-cookie", "usercert", "denied-key-cert", "foreign-cert", "ipcert-outside", "ipcert-outside-fwd", "csrf", "csrf"}
 	methods := []string{"GET", "POST", "POST", "PUT", "DELETE", "HEAD", "OPTIONS"}
